@@ -41,6 +41,11 @@ def check(ctx: Ctx) -> str:
     r2_tables(ctx)
     r3_lookup_order(ctx)
     r4_compile_expression(ctx)
+    # an expression whose evaluation fails must fail when (and only if) it is evaluated at
+    # run time - never at compile time through constant folding (rule shared with C08)
+    from .c08 import r0_fold_failures
+
+    r0_fold_failures(ctx, "R5")
     return __doc__ or ""
 
 
